@@ -9,10 +9,24 @@ spliced into the line the way the shells do (replace ``prefix_len`` characters b
 the spliced line is executed by the real execer with ``rec`` being an in-process recording alias,
 and the recorded argv must be exactly ``[name]`` (``name`` or ``name/`` for a directory).
 
+Part 1b (company).  The same round trip in directories holding 2 or 3 entries at once (all pairs and
+triples out of one representative per quoting class: plain, ``$``, backslash, each quote kind, control
+character, blank, ...) for every opening-quote style, under EVERY order in which the completer can
+visit the candidates: they travel in a ``set``, so the order depends on the hash seed; the real
+``_quote_paths`` is handed the same candidates as a list in each permutation.  Every completion must
+read back as exactly one argument naming one of the entries (a failing completion that is literally
+the single-entry completion of part 1 is not counted twice).
+
 Part 2 (analyser totality).  ``CompletionContextParser.parse(text, cursor)`` for ALL strings up to
 a length bound over a 20-symbol alphabet x every cursor position: never raises, and the context's
 prefix / suffix (command context) or code slice (python context) reproduce the text around the
 cursor.
+
+Part 3 (analyser, prefixed strings).  The same oracle for ALL sequences of up to 3 (thorough: 4 on a
+reduced set) symbols out of {'', f, F, rf, fr, b, r} x {', ", ''', \"\"\"} (the bare quotes double
+as closers: terminated and unterminated literals of every kind) plus a few neighbours, x every cursor.
+Every parse runs under a CPU-time fuse (ITIMER_VIRTUAL, independent of machine load): "never fails"
+includes "returns".
 
 Does NOT require (never flagged):
 * that a completion is offered at all (an empty completion list inserts nothing);
@@ -58,7 +72,7 @@ KEYWORD_NAMES = ["and", "or", "not", "in", "is", "if"]
 STYLES = ["", "'", '"', "r'", 'r"', "'''", "p'", "pr'"]
 
 CHAR_NAMES = {
-    "a": "a", " ": "sp", "'": "sq", '"': "dq", "$": "dollar", "\\": "bslash", "\n": "nl", "\t": "tab",
+    "a": "a", "b": "b", " ": "sp", "'": "sq", '"': "dq", "$": "dollar", "\\": "bslash", "\n": "nl", "\t": "tab",
     "*": "star", "?": "qmark", "[": "lbrack", "]": "rbrack", "{": "lbrace", "}": "rbrace", "(": "lparen",
     ")": "rparen", "&": "amp", "|": "pipe", ";": "semi", "<": "lt", ">": "gt", "!": "bang", "#": "hash",
     "~": "tilde", "-": "dash", "=": "eq", ",": "comma", "%": "pct", "@": "at", "`": "btick",
